@@ -108,6 +108,9 @@ func genScRoundtrip(h *H) {
 			if thorough {
 				pats = []int{0, 1, 2, 3, 4}
 			}
+			if h.specOracles && !thorough {
+				pats = pats[:0]
+			}
 			for _, pt := range pats {
 				h.tag("len:chunk-boundary-streamed")
 				h.Run(scSealCase(s, bigPieces(pt, msg), sealRng(h.rng, 2), false))
